@@ -156,6 +156,30 @@ func c13Observe(out *bytes.Buffer, bnd *soy.Bundle, entry string, d map[string]r
 	}
 	sort.Strings(js)
 	out.WriteString(strings.Join(js, "\n") + "\n")
+	// the same compiled bundle used a second time: generating and rendering again gives the same again
+	for _, sf := range reg.SoyFiles {
+		var buf bytes.Buffer
+		werr := soyjs.Write(&buf, sf, soyjs.Options{})
+		again := fmt.Sprintf("JS %s %s %s %x", sf.Name, "es5", errClass(werr), sha1.Sum(buf.Bytes()))
+		found := false
+		for _, l := range js {
+			if l == again {
+				found = true
+			}
+		}
+		if !found {
+			fmt.Fprintf(out, "SECOND-USE-DIFFERS second JavaScript generation of %s: %s\n", sf.Name, again)
+		}
+	}
+	for _, e := range []string{entry, "ex.main", "chain.user.main"} {
+		if _, ok := reg.Template(e); !ok {
+			continue
+		}
+		got, rerr := render(tofu, e, d, ij, nil)
+		if line := fmt.Sprintf("RENDER %s %s %q\n", e, errClass(rerr), got); !strings.Contains(out.String(), line) {
+			fmt.Fprintf(out, "SECOND-USE-DIFFERS render after JavaScript generation: %s", line)
+		}
+	}
 }
 
 func c13Program(seed uint64, tier string) (files []srcFile, prog *gen.Program, hasErr bool) {
@@ -288,6 +312,10 @@ func init() {
 				src += f.Text
 			}
 			ctx.Eval(src)
+			if k := strings.Index(base, "SECOND-USE-DIFFERS"); k >= 0 {
+				return fw.Result{Verdict: fw.Violated, Key: "second-use-differs", Case: map[string]interface{}{"files": files, "entry": prog.Entry, "data": goData(prog.Data)},
+					Msg: "one compiled bundle, used twice in a row: " + fw.Trim(base[k:], 600)}
+			}
 			if strings.HasPrefix(base, "COMPILE-ERROR") {
 				ctx.Obs("bundles_rejected", 1)
 			} else {
